@@ -189,7 +189,12 @@ def main(argv=None):
     stats["files"] = ctx.repo.files
     wall = time.time() - t0
     if not a.no_evidence and not a.only:
-        report.write_evidence(prop, tier, seed, results, stats, wall, getattr(mod, "EXPLANATION", ""), ASSUMPTIONS + list(getattr(mod, "ASSUMPTIONS", [])),
+        kinds = []
+        for _, kind, _f in getattr(mod, "OBLIGATIONS", []):
+            if kind not in kinds:
+                kinds.append(kind)
+        expl = getattr(mod, "EXPLANATION", "") + " Rule kinds evaluated in this run (DESIGN.md §3.2, §9.10, §9.11): " + "; ".join(kinds) + "."
+        report.write_evidence(prop, tier, seed, results, stats, wall, expl, ASSUMPTIONS + list(getattr(mod, "ASSUMPTIONS", [])),
                               selftest, exhaustive=False)
     print("%s tier=%s obligations=%d discharged=%d known=%d violations=%d undecided=%d wall=%.2fs" % (
         prop, tier, len(results), nok, len([r for r in results if r.known]), nviol, nerr, wall))
